@@ -390,7 +390,16 @@ fn exec_ops(ops: &[Op], m: &mut TaskModel) {
                     // (every message ends in ';' so that none is a prefix of another: p1-0-1; vs p1-0-10;)
                     format!("p'{}-{}\nline2-{};", m.run, m.task, m.counter)
                 } else {
-                    format!("p{}-{}-{};", m.run, m.task, m.counter)
+                    // message shapes a recorder may mishandle: long (buffers, truncation), multi-byte (cuts), format
+                    // directives, control bytes
+                    let pad = match kernel::choose_w(&[12, 1, 1, 1, 1], "panic.shape") {
+                        0 => String::new(),
+                        1 => "x".repeat([250usize, 1020, 4090, 8190][choose(4, "panic.long")] + choose(8, "panic.long_off")),
+                        2 => "\u{e9}\u{20ac}\u{1f600}".repeat(range(1, 120, "panic.wide")),
+                        3 => "{}{0}%s%n\\u{41}".to_string(),
+                        _ => "\u{1b}[0m\r\t\u{0}\u{7f}".to_string(),
+                    };
+                    format!("p{}-{}-{}{pad};", m.run, m.task, m.counter)
                 };
                 let is_static = is_static && m.counter <= 4;
                 let dc = depth_catching(m);
